@@ -190,7 +190,7 @@ CLAIMED["C04"] = dict(
          "call sends is framed by the real send path and read by the vendor reader; encoders and frames are also tied to the model by the C03 differential.",
     design_ref="DESIGN.md section 7, C04 and section 12",
     technique="Lean 4 proof (encoder model read back by an independent vendor-document reader; frame layout and CRC) + API model theorems + exhaustive-grid judgement of the real API's frames by the vendor reader",
-    note=CODEC_NOTE + "Quick-timer and AC-timer control messages are not in the vendor documents: only their addressing, length and check bytes are judged. The AirTouch 5 outer 10-byte header is undocumented (reverse-engineered upstream): judged for consistency with the inner frame only.")
+    note=CODEC_NOTE + "Quick-timer and AC-timer control messages are not in the vendor documents: their addressing, length and check bytes are judged, and for time-of-day set / clear calls the record of the AC is read with the upstream layout (requested timer as requested, the other timer exactly as last reported). The AirTouch 5 outer 10-byte header is undocumented (reverse-engineered upstream): judged for consistency with the inner frame only.")
 
 API_NOTE = ("API layer: the enum tables, constants and timeouts of at4/api.py, at5/api.py and api.py are regenerated from the source on every run "
             "(Gen/ApiEnums, Gen/Api4, Gen/Api5); the hand-written state-machine models Model/Api4.lean and Model/Api5.lean (object heap, dictionaries "
